@@ -6,6 +6,7 @@ package main
 // real inject.Injector chains and on the Flame -> request context chain.
 
 import (
+	"errors"
 	"encoding/json"
 	"fmt"
 	"io"
@@ -126,7 +127,7 @@ type injCase struct {
 	Parent []int   `json:"parent"`
 	Hist   []injOp `json:"hist"`
 	Via    string  `json:"via,omitempty"`
-	Probe  string  `json:"probe,omitempty"` // flame via: additionally re-map a service of the request scope ("ctx" / "svc"), "-" = no
+	Probe  string  `json:"probe,omitempty"` // flame via: additionally re-map a service of the request scope ("ctx" / "svc") or look at the result values the ReturnHandler receives ("ret"), "-" = no
 }
 
 var injSigs = [][]string{
@@ -303,7 +304,7 @@ func injReplay(raw json.RawMessage, idx int, tr *traceWriter) {
 		vias = []string{c.Via}
 	}
 	if c.Probe == "" {
-		c.Probe = []string{"ctx", "-", "-", "-", "svc", "-", "-", "-"}[idx%8]
+		c.Probe = []string{"ctx", "-", "ret", "-", "svc", "-", "-", "-"}[idx%8]
 	}
 	for _, via := range vias {
 		c2 := c
@@ -318,6 +319,9 @@ func injReplay(raw json.RawMessage, idx int, tr *traceWriter) {
 			}
 			if c.Probe == "svc" {
 				injSvcProbe(tr)
+			}
+			if c.Probe == "ret" {
+				injRetProbe(tr)
 			}
 		}
 	}
@@ -491,6 +495,70 @@ func injCtxProbe(tr *traceWriter) {
 		tr.emit(map[string]interface{}{"ev": "invoke", "s": 2, "sig": []string{"CTX"}, "fast": p == "/fast", "err": false, "errtype": "",
 			"calls": calls, "args": args, "rets": []string{}, "bodyrets": []string{}})
 		tr.emit(map[string]interface{}{"ev": "endreq", "s": 2})
+	}
+}
+
+// injRetProbe: the results of a handler come back unchanged, whichever way the framework invokes it. Handlers of the
+// forms a framework is likely to special-case (with the Context / the net/http pair / nothing as arguments, one or two
+// results) are registered as they are - so that any automatic fast-path wrapping applies - and the ReturnHandler
+// service records what it is handed: every result must be a valid value of the DECLARED result type, as a reflective
+// call produces it (a nil error is a value of type error, not an invalid one; an error is not narrowed to its concrete type).
+func injRetProbe(tr *traceWriter) {
+	e := errors.New("boom")
+	forms := []struct {
+		name string
+		fn   interface{}
+	}{
+		{"ctx_err_nil", func(flamego.Context) error { return nil }},
+		{"ctx_err", func(flamego.Context) error { return e }},
+		{"ctx_string", func(flamego.Context) string { return "s" }},
+		{"ctx_bytes", func(flamego.Context) []byte { return []byte("b") }},
+		{"ctx_int_string", func(flamego.Context) (int, string) { return 201, "s" }},
+		{"ctx_int_err", func(flamego.Context) (int, error) { return 500, e }},
+		{"ctx_int_err_nil", func(flamego.Context) (int, error) { return 204, nil }},
+		{"ctx_string_err_nil", func(flamego.Context) (string, error) { return "s", nil }},
+		{"ctx_any_nil", func(flamego.Context) interface{} { return nil }},
+		{"ctx_any_string", func(flamego.Context) interface{} { return "s" }},
+		{"ctx_ptr_nil", func(flamego.Context) *string { return nil }},
+		{"none_err_nil", func() error { return nil }},
+		{"none_err", func() error { return e }},
+		{"none_string", func() string { return "s" }},
+		{"none_int_string", func() (int, string) { return 201, "s" }},
+		{"rw_req_err_nil", func(http.ResponseWriter, *http.Request) error { return nil }},
+		{"rw_req_string", func(http.ResponseWriter, *http.Request) string { return "s" }},
+		{"req_err", func(*http.Request) error { return e }},
+	}
+	for _, fm := range forms {
+		f := flamego.NewWithLogger(io.Discard)
+		got := []string{}
+		calls := 0
+		f.Map(flamego.ReturnHandler(func(c flamego.Context, vals []reflect.Value) {
+			calls++
+			for _, v := range vals {
+				if !v.IsValid() {
+					got = append(got, "<invalid>")
+				} else {
+					got = append(got, v.Type().String())
+				}
+			}
+		}))
+		f.Get("/", fm.fn)
+		req, _ := http.NewRequest("GET", "/", nil)
+		panicked := false
+		func() {
+			defer func() {
+				if r := recover(); r != nil {
+					panicked = true
+				}
+			}()
+			f.ServeHTTP(httptest.NewRecorder(), req)
+		}()
+		declared := []string{}
+		t := reflect.TypeOf(fm.fn)
+		for i := 0; i < t.NumOut(); i++ {
+			declared = append(declared, t.Out(i).String())
+		}
+		tr.emit(map[string]interface{}{"ev": "retshape", "form": fm.name, "declared": declared, "got": got, "calls": calls, "panicked": panicked})
 	}
 }
 
